@@ -6,6 +6,16 @@ Tag == SetToSeq({ [e |-> x, f |-> y, g |-> Lit(<<1>>), tagged |-> TRUE, nested |
 \* a tagged choice nested before a non-nullable continuation: (e{1} | f{2}) g
 Sfx == { Lit(<<1>>), Lit(<<2>>), Lit(<<1, 2>>) }
 Nested == SetToSeq({ [e |-> x, f |-> y, g |-> z, tagged |-> TRUE, nested |-> TRUE] : x \in TagEx, y \in TagEx, z \in Sfx })
-ASSUME ndJsonSerialize(IOEnv.OUT, Plain \o Tag \o Nested)
-ASSUME PrintT(<<"GENERATED", Len(Plain) + Len(Tag) + Len(Nested)>>)
+\* the empty literal as an operand (a single-state automaton): in front of, between and behind other operands of a
+\* sequence, inside a repeated group, and as an alternative
+Small == UNION { Ex(n, Sigma) : n \in 0..1 }
+Eps == Lit(<<>>)
+EpsEx == { Bin("seq", x, Bin("seq", Eps, y)) : x \in Small, y \in Small }
+         \cup { Bin("seq", Bin("seq", x, Eps), y) : x \in Small, y \in Small }
+         \cup { Bin("seq", x, Eps) : x \in Small } \cup { Bin("seq", Eps, x) : x \in Small }
+         \cup { Un(o, Bin("seq", x, Bin("seq", Eps, Un("opt", y)))) : o \in {"some", "many"}, x \in Small, y \in { Lit(<<c>>) : c \in Sigma } }
+         \cup { Bin("alt", Eps, x) : x \in Small } \cup { Eps, Bin("seq", Eps, Eps) }
+EpsVec == SetToSeq({ [e |-> x, f |-> Lit(<<1>>), g |-> Lit(<<1>>), tagged |-> FALSE, nested |-> FALSE] : x \in EpsEx })
+ASSUME ndJsonSerialize(IOEnv.OUT, Plain \o Tag \o Nested \o EpsVec)
+ASSUME PrintT(<<"GENERATED", Len(Plain) + Len(Tag) + Len(Nested) + Len(EpsVec)>>)
 =============================================================================
